@@ -6,8 +6,9 @@ generated tables)
 
   c16 <mixers 0|1> <event>*
       -> <group>|<group>|…;<clock>;<available bits>;<tx counts>;<loaded time or ->;<errors>
+      a `w:<ms>` that would reach or cross the pending deadline is not an event of the machine: bad-op
   c16judge <mixers 0|1> <t0> <complete 0|1> <loaded time or -> <errors e.e.e or -> <answers a,a,… (- = never)> <tx n,n,…> <present bits>
-      -> pass | fail
+      -> pass | full-only[:F11-input] | fail
 events:  s   a:<kind position>   w:<ms>   t   v:<k.k.k or -> (frame-versions table naming these kinds)
 outputs: X:<kind>:<t>   L:<t>:<e.e.e or ->   V:<kind>:<t> (request by the frame-versions handler)
 -/
@@ -49,11 +50,21 @@ def parseOptNat (s : String) : Option (Option Nat) :=
 
 end Setup
 
+/-- every `.wait d` of the history stays short of the pending deadline (the machine's `.wait` is only defined there;
+crossing it is the `.timer` event) -/
+def waitsOk (c : Cfg) : St → List Ev → Bool
+  | _, [] => true
+  | s, e :: es =>
+    (match e, s.phase with
+     | .wait d, .running i => decide (s.now + d < s.t0 + i * c.T)
+     | _, _ => true) && waitsOk c (step c s e).1 es
+
 def setupOps : List String → Option String
   | "c16" :: m :: evs => do
     let mixers ← Setup.parseBool m
     let es ← evs.mapM Setup.parseEv
     let c := ecomaxCfg mixers
+    if !(waitsOk c init es) then none else
     let groups := runGroups c init es
     let sf := (run c init es).1
     let bits := String.ofList ((kinds c).map fun k => if avail c sf k then '1' else '0')
@@ -74,7 +85,12 @@ def setupOps : List String → Option String
     let present ← pres.toList.mapM (fun ch => if ch = '1' then some true else if ch = '0' then some false else none)
     let c := ecomaxCfg mixers
     if answers.length ≠ c.n ∨ tx.length ≠ c.n ∨ present.length ≠ c.n then none
-    else pure (if C16.spec c ⟨t0, answers, complete, loadedAt, errors, tx, present⟩ then "pass" else "fail")
+    else
+      let o : C16.Obs := ⟨t0, answers, complete, loadedAt, errors, tx, present⟩
+      -- pass: the statement as written holds; full-only: only the literal "data of every answered request is available"
+      -- fails (with or without the input class of finding F11); fail: another clause fails
+      pure (if C16.specFull c o then "pass"
+            else if C16.spec c o then (if C16.f11Input c o then "full-only:F11-input" else "full-only") else "fail")
   | _ => none
 
 end PlumVerif
